@@ -123,6 +123,13 @@ Proof.
   eapply frame_trans; [apply H|apply IH, H].
 Qed.
 
+Lemma write_part_header_frame : forall hdrs st, frame st (write_part_header hdrs st).
+Proof.
+  intros hdrs st. unfold write_part_header.
+  eapply frame_trans; [|apply write_string_frame].
+  apply fold_frame. intros s kv. apply fold_frame. intros s2 v. apply write_string_frame.
+Qed.
+
 (* pw is preserved by the header-level operations *)
 Lemma write_string_pw : forall s st, pw (write_string s st) = pw st.
 Proof. intros s st. now destruct (write_string_ext s st) as (_ & _ & _ & P & _). Qed.
@@ -330,15 +337,16 @@ Proof. intros a b c (A1 & A2 & A3) (B1 & B2 & B3). unfold keeps. ssplit; auto; c
 Definition has_failing_part (p : part) : bool := pfail (p_prod p).
 Definition has_failing_file (f : file) : bool := pfail (f_prod f).
 
-Lemma write_part_spec : forall we cs p st,
-  Inv st -> keeps st (write_part we cs p st) /\ (pfail (p_prod p) = true -> err (write_part we cs p st) = true).
+Lemma write_part_spec : forall encl we cs p st,
+  Inv st -> keeps st (write_part encl we cs p st) /\ (pfail (p_prod p) = true -> err (write_part encl we cs p st) = true).
 Proof.
-  intros we cs p st HI. unfold write_part.
+  intros encl we cs p st HI. unfold write_part.
   set (ctype := p_ctype p ++ bs "; charset=" ++ _).
+  set (hdrs := _ ++ _).
   destruct (Nat.eqb_spec (depth st) 0) as [Hz|Hnz].
-  - set (st1 := write_string crlf _).
+  - set (st1 := if encl then _ else _).
     assert (K1 : keeps st st1).
-    { apply frame_keeps; [exact HI|]. unfold st1.
+    { apply frame_keeps; [exact HI|]. unfold st1. destruct encl; [apply write_part_header_frame|].
       eapply frame_trans; [|apply write_string_frame].
       eapply frame_trans; apply write_header_uncounted_frame. }
     destruct K1 as (HI1 & Hm1 & Hd1).
@@ -346,8 +354,7 @@ Proof.
     rewrite andthen_run by (apply HI1).
     destruct (write_body_spec (p_prod p) (p_enc p) st1 HI1) as (HI2 & Hm2 & Hp2 & Hd2); [left; lia|].
     unfold keeps. ssplit; auto; try lia; try (intros He; apply Hm2; auto).
-  - set (hdrs := _ ++ _).
-    destruct (new_part_spec hdrs st HI) as (HI1 & Hm1 & Hd1 & Hpw1); [lia|].
+  - destruct (new_part_spec hdrs st HI) as (HI1 & Hm1 & Hd1 & Hpw1); [lia|].
     set (st1 := new_part hdrs st) in *.
     destruct (err st1) eqn:He1; [unfold keeps; ssplit; auto|].
     rewrite andthen_run by (apply HI1).
@@ -357,25 +364,25 @@ Qed.
 
 Definition has_failing_rfile (fe : file * enc) : bool := pfail (f_prod (fst fe)).
 
-Lemma add_files_spec : forall files st,
+Lemma add_files_spec : forall encl files st,
   Inv st ->
-  keeps st (add_files files st) /\
-  (existsb has_failing_rfile files = true -> err (add_files files st) = true).
+  keeps st (add_files encl files st) /\
+  (existsb has_failing_rfile files = true -> err (add_files encl files st) = true).
 Proof.
-  intros files. induction files as [|[f' e] rest IH]; intros st HI; cbn [add_files].
+  intros encl files. induction files as [|[f' e] rest IH]; intros st HI; cbn [add_files].
   - unfold keeps. cbn. ssplit; auto. discriminate.
   - rewrite (Inv_panicked _ HI).
     set (hdrs := map _ (f_hdr f')).
     set (st1 := if Nat.eqb (depth st) 0 then _ else _).
     assert (K1 : keeps st st1 /\ (err st1 = false -> depth st1 = 0 \/ exists i, pw st1 = Some i /\ i < length (mps st1))).
     { unfold st1. destruct (Nat.eqb_spec (depth st) 0) as [Hz|Hnz].
-      - split.
-        + apply frame_keeps; [exact HI|]. eapply frame_trans; [|apply write_string_frame].
-          apply fold_frame. intros s kv. apply write_header_uncounted_frame.
-        + intros _. left.
-          assert (F : frame st (write_string crlf (fold_left (fun s kv => write_header_uncounted (fst kv) (snd kv) s) (sort_kv hdrs) st))).
-          { eapply frame_trans; [|apply write_string_frame]. apply fold_frame. intros s kv. apply write_header_uncounted_frame. }
-          destruct F as (_ & D & _). lia.
+      - assert (F : frame st (if encl then write_part_header hdrs st
+                              else write_string crlf (fold_left (fun s kv => write_header_uncounted (fst kv) (snd kv) s) (sort_kv hdrs) st))).
+        { destruct encl; [apply write_part_header_frame|].
+          eapply frame_trans; [|apply write_string_frame]. apply fold_frame. intros s kv. apply write_header_uncounted_frame. }
+        split.
+        + apply frame_keeps; [exact HI|exact F].
+        + intros _. left. destruct F as (_ & D & _). lia.
       - destruct (new_part_spec hdrs st HI) as (HI1 & Hm1 & Hd1 & Hpw1); [lia|].
         split; [unfold keeps; auto|]. intros He. right. auto. }
     destruct K1 as ((HI1 & Hm1 & Hd1) & Hpw1).
@@ -392,16 +399,16 @@ Proof.
     destruct Hex as [Hx|Hx]; [apply Hm3, Hp2, Hx|apply Hp3, Hx].
 Qed.
 
-Lemma write_parts_spec : forall we cs parts st,
+Lemma write_parts_spec : forall encl we cs parts st,
   Inv st ->
-  keeps st (fold_left (fun s p => s |> write_part we cs p) parts st) /\
+  keeps st (fold_left (fun s p => s |> write_part encl we cs p) parts st) /\
   (existsb has_failing_part parts = true ->
-   err (fold_left (fun s p => s |> write_part we cs p) parts st) = true).
+   err (fold_left (fun s p => s |> write_part encl we cs p) parts st) = true).
 Proof.
-  intros we cs parts. induction parts as [|p rest IH]; intros st HI; cbn [fold_left existsb].
+  intros encl we cs parts. induction parts as [|p rest IH]; intros st HI; cbn [fold_left existsb].
   - unfold keeps. ssplit; auto. discriminate.
   - rewrite andthen_run by (apply HI).
-    destruct (write_part_spec we cs p st HI) as ((HI1 & Hm1 & Hd1) & Hp1).
+    destruct (write_part_spec encl we cs p st HI) as ((HI1 & Hm1 & Hd1) & Hp1).
     destruct (IH _ HI1) as ((HI2 & Hm2 & Hd2) & Hp2).
     unfold keeps. ssplit; auto; try lia.
     unfold has_failing_part at 1. intros Hex. apply orb_true_iff in Hex.
@@ -427,14 +434,14 @@ Proof.
   rewrite andthen_run by (apply HI). destruct (stop_mp_spec st HI) as (A & B & _). auto.
 Qed.
 
-Lemma add_files_safe_spec : forall files st,
+Lemma add_files_safe_spec : forall encl files st,
   Inv st ->
-  Inv (add_files_safe files st) /\
-  (err st = true -> err (add_files_safe files st) = true) /\
-  (existsb has_failing_rfile files = true -> err (add_files_safe files st) = true).
+  Inv (add_files_safe encl files st) /\
+  (err st = true -> err (add_files_safe encl files st) = true) /\
+  (existsb has_failing_rfile files = true -> err (add_files_safe encl files st) = true).
 Proof.
-  intros files st HI. unfold add_files_safe. rewrite (Inv_panicked _ HI).
-  destruct (add_files_spec files st HI) as ((A & B & _) & C). auto.
+  intros encl files st HI. unfold add_files_safe. rewrite (Inv_panicked _ HI).
+  destruct (add_files_spec encl files st HI) as ((A & B & _) & C). auto.
 Qed.
 
 Lemma headers_spec : forall gen m st,
@@ -455,31 +462,29 @@ Qed.
 Definition rmsg_has_failing_producer (z : rmsg) : bool :=
   existsb has_failing_part (m_parts (z_msg z)) || existsb has_failing_rfile (z_embeds z) || existsb has_failing_rfile (z_attach z).
 
-Lemma write_resolved_spec : forall z st,
-  Inv st ->
-  Inv (write_resolved z st) /\
-  (err st = true -> err (write_resolved z st) = true) /\
-  (rmsg_has_failing_producer z = true -> err (write_resolved z st) = true).
+Lemma write_entity_spec : forall encl z st4,
+  Inv st4 ->
+  Inv (write_entity encl z st4) /\
+  (err st4 = true -> err (write_entity encl z st4) = true) /\
+  (rmsg_has_failing_producer z = true -> err (write_entity encl z st4) = true).
 Proof.
-  intros z st HI. unfold write_resolved. set (m := z_msg z).
-  destruct (headers_spec (m_gen m) m st HI) as (HI4 & Hm4).
-  set (st4 := write_addr_headers m _) in *.
+  intros encl z st4 HI4. unfold write_entity. set (m := z_msg z).
   destruct (open_mp_spec (has_mixed m) Gen.mime_mixed (m_bmixed m) (z_bad_mixed z) st4 HI4) as (HI5 & Hm5).
   set (st5 := open_mp (has_mixed m) _ _ _ st4) in *.
   destruct (open_mp_spec (has_related m) Gen.mime_related (m_brelated m) (z_bad_related z) st5 HI5) as (HI6 & Hm6).
   set (st6 := open_mp (has_related m) _ _ _ st5) in *.
   destruct (open_mp_spec (has_alt m) Gen.mime_alternative (m_balt m) (z_bad_alt z) st6 HI6) as (HI7 & Hm7).
   set (st7 := open_mp (has_alt m) _ _ _ st6) in *.
-  destruct (write_parts_spec (m_wenc m) (m_charset m) (m_parts m) st7 HI7) as ((HI8 & Hm8 & _) & Hp8).
-  fold (write_parts m st7) in *.
-  destruct (close_mp_spec (has_alt m) (write_parts m st7) HI8) as (HI9 & Hm9).
-  set (st9 := close_mp (has_alt m) (write_parts m st7)) in *.
-  destruct (add_files_safe_spec (z_embeds z) st9 HI9) as (HI10 & Hm10 & Hp10).
-  set (st10 := add_files_safe (z_embeds z) st9) in *.
+  destruct (write_parts_spec encl (m_wenc m) (m_charset m) (m_parts m) st7 HI7) as ((HI8 & Hm8 & _) & Hp8).
+  fold (write_parts encl m st7) in *.
+  destruct (close_mp_spec (has_alt m) (write_parts encl m st7) HI8) as (HI9 & Hm9).
+  set (st9 := close_mp (has_alt m) (write_parts encl m st7)) in *.
+  destruct (add_files_safe_spec encl (z_embeds z) st9 HI9) as (HI10 & Hm10 & Hp10).
+  set (st10 := add_files_safe encl (z_embeds z) st9) in *.
   destruct (close_mp_spec (has_related m) st10 HI10) as (HI11 & Hm11).
   set (st11 := close_mp (has_related m) st10) in *.
-  destruct (add_files_safe_spec (z_attach z) st11 HI11) as (HI12 & Hm12 & Hp12).
-  set (st12 := add_files_safe (z_attach z) st11) in *.
+  destruct (add_files_safe_spec encl (z_attach z) st11 HI11) as (HI12 & Hm12 & Hp12).
+  set (st12 := add_files_safe encl (z_attach z) st11) in *.
   destruct (close_mp_spec (has_mixed m) st12 HI12) as (HI13 & Hm13).
   ssplit; [exact HI13| |].
   - intros He. auto 20.
@@ -490,6 +495,28 @@ Proof.
       * apply Hm13, Hm12, Hm11, Hp10, Hx.
     + apply Hm13, Hp12, Hx.
 Qed.
+
+Lemma write_top_headers_spec : forall z st,
+  Inv st -> Inv (write_top_headers z st) /\ (err st = true -> err (write_top_headers z st) = true).
+Proof. intros z st HI. unfold write_top_headers. now apply headers_spec. Qed.
+
+Lemma write_resolved_gen_spec : forall encl z st,
+  Inv st ->
+  Inv (write_resolved_gen encl z st) /\
+  (err st = true -> err (write_resolved_gen encl z st) = true) /\
+  (rmsg_has_failing_producer z = true -> err (write_resolved_gen encl z st) = true).
+Proof.
+  intros encl z st HI. unfold write_resolved_gen.
+  destruct (write_top_headers_spec z st HI) as (HI4 & Hm4).
+  destruct (write_entity_spec encl z _ HI4) as (A & B & C). ssplit; auto.
+Qed.
+
+Lemma write_resolved_spec : forall z st,
+  Inv st ->
+  Inv (write_resolved z st) /\
+  (err st = true -> err (write_resolved z st) = true) /\
+  (rmsg_has_failing_producer z = true -> err (write_resolved z st) = true).
+Proof. intros z st HI. now apply write_resolved_gen_spec. Qed.
 
 Definition msg_has_failing_producer (m : msg) : bool :=
   existsb has_failing_part (m_parts m) || existsb has_failing_file (m_embeds m) || existsb has_failing_file (m_attach m).
